@@ -37,9 +37,10 @@ func isSPFieldLoad(v ssa.Value) (obj ssa.Value, field string) {
 }
 
 // raisingStore classifies a store to a SlashingProtection field as monotone:
-//   (a) obj.f = max(obj.f, X.f)       -> returns X as source
-//   (b) obj.f = v below [obj.f < v]   -> returns nil source, ok
-//   (c) constant -1 into a fresh composite literal
+//
+//	(a) obj.f = max(obj.f, X.f)       -> returns X as source
+//	(b) obj.f = v below [obj.f < v]   -> returns nil source, ok
+//	(c) constant -1 into a fresh composite literal
 func raisingStore(fn *ssa.Function, st *ssa.Store, obj ssa.Value, field string) (src ssa.Value, kind string) {
 	if k, ok := constIntOf(st.Val); ok && k == -1 {
 		if a, ok := obj.(*ssa.Alloc); ok && a.Heap {
